@@ -1,6 +1,8 @@
 import Dashu.Driver.Loop
 import Dashu.Model.Trans.Guards
 import Dashu.Model.Trans.Powi
+import Dashu.Model.Trans.PowiNeg
+import Dashu.Model.Trans.CertFloat
 /-
   Driver of group `trans` (C11).
 
@@ -82,6 +84,7 @@ def splitClaim (args : List String) : List String × Option (List String) :=
   let pre := args.takeWhile (· != "|")
   let post := args.dropWhile (· != "|")
   match post with
+  | [_, one] => (pre, some (one.splitOn ","))     -- the claim travels as ONE token `ok,<sig>,<exp>,<prec>,<flag>`
   | _ :: rest => (pre, some rest)
   | [] => (pre, none)
 
@@ -107,9 +110,13 @@ def fuel : Nat := 9
 def bucket (encl : Nat → Rat × Rat) (r u : Rat) (n : Nat) : String :=
   if u ≤ 0 then "zero-result"
   else
-    let e := encl (2 * n + 64)
+    let e := encl (4 * n + 256)
     let dHi := (if absR (e.1 - r) < absR (e.2 - r) then absR (e.2 - r) else absR (e.1 - r)) / u   -- upper bound of |r−v|/u
-    if dHi < 1 + (1 : Rat) / 16 then "error=1ulp+tiny(<2^-4ulp)"
+    if dHi < 1 + (1 : Rat) / 16 then
+      -- the sliver beyond one ulp, as a power of two: excess < 2^-j
+      let ex := dHi - 1
+      let j : Nat := if ex ≤ 0 then 999 else ((-(log2Rat ex)) - 1).toNat
+      "error=1ulp+tiny(<2^-4ulp) sliver<2^-" ++ toString j
     else if dHi < 2 then "error<2ulp"
     else if dHi < 16 then "error<16ulp"
     else "error>=16ulp"
@@ -196,7 +203,33 @@ def entryStr (en : Entry) (a : FArg) (p : Nat) (k : Unit → Option String) : Op
     some (ok (intToHex r.1 ++ " " ++ toString r.2.1 ++ " " ++ toString p ++ " " ++ flagStr r.2.2))
   | .compute => k ()
 
+/-- does `floor (x / ln B)` leave the range of `isize`?  `some true` / `some false` when an enclosure of `ln B`
+    decides, `none` when the budget is used up -/
+def overflowTest (B : Nat) (x : Rat) : Nat → Nat → Option Bool
+  | 0, _ => none
+  | fuel + 1, n =>
+    let l := lnEncl (B : Rat) n
+    let lim : Rat := ((2 ^ 63 : Nat) : Rat)
+    if 0 < x then
+      (if x / l.1 < lim then some false else if x / l.2 ≥ lim then some true else overflowTest B x fuel (2 * n + 64))
+    else
+      (if x / l.1 ≥ -lim then some false else if x / l.2 < -lim then some true else overflowTest B x fuel (2 * n + 64))
+
 def unary (fn : Fn) (a : FArg) (p : Nat) (claim : Option (List String)) : Option String :=
+  if !a.x.inf ∧ !a.small ∧ fn == .ln ∧ p ≠ 0 ∧ 0 < a.x.sig then
+    -- ln of a float whose exponent is too large to write the value down: log (sig·B^ex) = log sig + ex·log B
+    (do
+      let c ← claim
+      match parseClaim c with
+      | .value sig e prec exact text =>
+        if !claimShapeOk a.base p sig prec then some ("violation result-does-not-fit-context-precision " ++ text)
+        else
+          let r := fval a.base sig e; let u := ulp a.base sig e p
+          some (verdictStr (fun ex => certLnFloat a.base a.x.sig a.x.exp sig e p ex fuel (effort0 1 u + 16)) exact text
+            (bucket (lnFloatEncl a.base a.x.sig a.x.exp) r u))
+      | .panic _ => some "required a-value-within-1ulp (no documented panic applies to this input)"
+      | .other t => some ("required a-value-within-1ulp; observed " ++ t))
+  else
   if !a.x.inf ∧ !a.small then none else
   let en := match fn with
     | .exp => expEntry false a.x p
@@ -205,17 +238,13 @@ def unary (fn : Fn) (a : FArg) (p : Nat) (claim : Option (List String)) : Option
     | .ln1p => lnEntry a.base true a.x p
   entryStr en a p fun _ =>
     if (fn == .exp ∨ fn == .expm1) ∧ a.small ∧ absR a.val ≥ ((2 ^ 61 : Nat) : Rat) then
-      -- s = floor(x / ln B) must fit `isize`; beyond that the result's exponent cannot be represented and
-      -- the documented overflow panic is required (decided with an enclosure of ln B)
-      let l := lnEncl (a.base : Rat) 96
-      let x := a.val
-      let lim : Rat := ((2 ^ 63 : Nat) : Rat)
-      if 0 < x then
-        (if x / l.1 < lim then do let c ← claim; certUnary fn a p (parseClaim c)
-         else if x / l.2 ≥ lim + 1 then some (Dashu.Driver.panic "ExponentOverflow") else none)
-      else
-        (if x / l.1 ≥ -lim then do let c ← claim; certUnary fn a p (parseClaim c)
-         else if x / l.2 < -lim - 1 then some (Dashu.Driver.panic "ExponentOverflow") else none)
+      -- s = floor(x / ln B) must fit `isize` (-2^63 ≤ x / ln B < 2^63); beyond that the result's exponent cannot be
+      -- represented and the overflow panic is required.  Decided with enclosures of ln B of growing effort
+      -- (x / ln B is irrational, so the test ends unless the budget is hit).
+      match overflowTest a.base a.val 4 96 with
+      | some true => some (Dashu.Driver.panic "ExponentOverflow")
+      | some false => do let c ← claim; certUnary fn a p (parseClaim c)
+      | none => none
     else do
       let c ← claim
       certUnary fn a p (parseClaim c)
@@ -226,16 +255,28 @@ def toFloatMode : RMode → Dashu.Model.Float.Mode
 
 /-- tie of the mirrored powering loop (`Model/Trans/Powi.lean`, subject of `Props/C11Powi.lean`) to the code:
     for a non-negative exponent `n ≥ 2` at a limited precision the loop model must print the very digits the
-    implementation printed (a mismatch is a defect of OUR mirror: `!model-mirror-mismatch`) -/
+    implementation printed (a mismatch means the code no longer runs this loop: `mirror-drift`, reported by
+    ./check as a broken correspondence without failing input when the certificate still accepts the result) -/
 def powiMirror (a : FArg) (k : Int) (p : Nat) (claim : Option (List String)) (s : String) : String :=
-  if k < 2 ∨ p = 0 ∨ a.x.inf ∨ k.natAbs.log2 > 200 then s
+  if (0 ≤ k ∧ k < 2) ∨ p = 0 ∨ a.x.inf ∨ k.natAbs.log2 > 200 ∨ (k < 0 ∧ a.x.sig = 0) then s
   else
     match claim.map parseClaim with
     | some (.value sig e _ _ _) =>
-      let r := (powiNonneg false a.base (toFloatMode a.mode) Dashu.Model.Float.coarseNone p
+      let r : Dashu.Model.Float.FRepr :=
+        if 0 ≤ k then
+          (powiNonneg false a.base (toFloatMode a.mode) Dashu.Model.Float.coarseNone p
                   ⟨a.x.sig, a.x.exp⟩ (lowBits k.toNat)).2.1
+        else
+          match powiNeg false a.base (toFloatMode a.mode) Dashu.Model.Float.coarseNone p
+                  ⟨a.x.sig, a.x.exp⟩ k.natAbs with
+          | .ok v => v.2.2.1
+          | .error _ => ⟨0, 0⟩
       if r.signif = sig ∧ r.exp = e then s
-      else s ++ " !model-mirror-mismatch powi-loop model=" ++ intToHex r.signif ++ "," ++ toString r.exp
+      else
+        -- the code no longer runs the mirrored loop (e.g. other guard digits): the certificate verdict in `s`
+        -- stands on its own; the drift is made visible in the compared payload (vlib/props/c11.py `judge`)
+        (s.splitOn " #").head! ++ " mirror-drift:powi-loop(Model/Trans/Powi.lean) model=" ++ intToHex r.signif ++ "," ++
+          toString r.exp
     | _ => s
 
 def powi (a : FArg) (k : Int) (p : Nat) (claim : Option (List String)) : Option String :=
@@ -271,10 +312,35 @@ def powi (a : FArg) (k : Int) (p : Nat) (claim : Option (List String)) : Option 
       | .panic _ => some "required a-value-within-1ulp (no documented panic applies to this input)"
       | .other t => some ("required a-value-within-1ulp; observed " ++ t)
 
+/-- `powf` of a base whose exponent is too large to write the value down (`(1.5·2^-1048576)^0.75`): the base stays
+    a float, `log (sig·B^ex) = log sig + ex·log B` (`Model/Trans/CertFloat.lean`, `Props/C11Float.lean`); the
+    base is positive here (entry guard) -/
+def powfFloat (a b : FArg) (p : Nat) (claim : Option (List String)) : Option String :=
+  let B := a.base; let y := b.val
+  let aiv := scaleRat y (lnFloatEncl B a.x.sig a.x.exp (64 + magBits y))
+  let amin := if aiv.1 ≤ 0 ∧ 0 ≤ aiv.2 then 0 else if absR aiv.1 < absR aiv.2 then absR aiv.1 else absR aiv.2
+  let amax := if absR aiv.1 < absR aiv.2 then absR aiv.2 else absR aiv.1
+  let lB := lnEncl (B : Rat) 96
+  let lim : Rat := ((2 ^ 63 : Nat) : Rat)
+  if amin / lB.2 ≥ lim + 2 then some (Dashu.Driver.panic "ExponentOverflow")
+  else if amax / lB.1 ≥ lim - 2 then none
+  else do
+    let c ← claim
+    match parseClaim c with
+    | .value sig e prec exact text =>
+      if !claimShapeOk B p sig prec then some ("violation result-does-not-fit-context-precision " ++ text)
+      else
+        let u := ulpScaled B sig p
+        some (verdictStr (fun ex => certPowfFloatScaled B a.x.sig a.x.exp y sig e p ex fuel (effort0 (absR sig) u)) exact text
+          (fun n => if n = 0 then "error>=16ulp(exponent-far-off)" else bucket (powfFloatScaledEncl B a.x.sig a.x.exp y e) sig u n))
+    | .panic _ => some "required a-value-within-1ulp (no documented panic applies to this input)"
+    | .other t => some ("required a-value-within-1ulp; observed " ++ t)
+
 def powf (a b : FArg) (p : Nat) (claim : Option (List String)) : Option String :=
   entryStr (powfEntry a.x b.x p) a p fun _ =>
     if b.x.inf then some (Dashu.Driver.panic "Infinite")
-    else if !a.small ∨ !b.small then none
+    else if !b.small then none
+    else if !a.small then powfFloat a b p claim
     else
       -- |y · ln x| against the range of the exponent type
       let aiv := scaleRat b.val (lnEncl a.val (64 + magBits b.val))
@@ -323,11 +389,12 @@ def fits (a : FArg) : Bool := a.x.inf || a.prec == 0 || digits a.base a.x.sig.na
 def run (kind name : String) (pre : List String) (claim : Option (List String)) : Option String :=
   match kind, name, pre with
   | "f", "powi", [xs, ks] => do
-    let a ← parseF xs; let k ← parseInt ks
+    let a ← parseF xs; let k ← parseInt (if ks.startsWith "k:" then (ks.drop 2).toString else ks)
     if !fits a then none
     powi a k a.prec claim
   | "c", "powi", [xs, ks, ps] => do
-    let a ← parseF xs; let k ← parseInt ks; let p ← parseDecNat ps
+    let a ← parseF xs; let k ← parseInt (if ks.startsWith "k:" then (ks.drop 2).toString else ks)
+    let p ← parseDecNat ps
     powi a k p claim
   | "f", "powf", [xs, ys] => do
     let a ← parseF xs; let b ← parseF ys
